@@ -13,17 +13,16 @@ D0 == {0}
 DLen == {-1, 1}
 
 P111 == <<1,1,1,0>>       \* equal powers: a tally of 2 out of 3 is exactly 2/3 -> reject
-Small == { Pl(<<1,0,0,0>>, <<0,1,0,0>>, ClsAll, CbAll, D0), Pl(<<0,0,2,0>>, <<0,0,1,0>>, ClsAll, CbAll, D0),
-           Pl(<<3,1,0,0>>, <<1,1,1,1>>, ClsAll, CbAll, D0), Pl(<<0,1,0,1>>, <<0,2,0,1>>, ClsAll, CbAll, D0),
-           Pl(<<0,0,1,2>>, <<1,0,0,3>>, ClsAll, CbAll, D0),
-           Pl(<<0,0,0,0>>, <<1,0,0,0>>, ClsLen, CbAll, {0, 1}),          \* empty validator set
-           Pl(P111, P111, ClsLen, CbAll, DLen), Pl(<<3,1,0,0>>, <<1,1,1,1>>, ClsLen, CbAll, DLen) }
-PlansQ == Small \cup
+Small1 == { Pl(<<1,0,0,0>>, <<0,1,0,0>>, ClsAll, CbAll, D0), Pl(<<0,0,2,0>>, <<0,0,1,0>>, ClsAll, CbAll, D0),
+            Pl(<<0,0,0,0>>, <<1,0,0,0>>, ClsLen, CbAll, {0, 1}),          \* empty validator set
+            Pl(P111, P111, ClsLen, CbAll, DLen), Pl(<<3,1,0,0>>, <<1,1,1,1>>, ClsLen, CbAll, DLen) }
+Small2(cbs) == { Pl(<<3,1,0,0>>, <<1,1,1,1>>, ClsAll, cbs, D0), Pl(<<0,1,0,1>>, <<0,2,0,1>>, ClsAll, cbs, D0),
+                 Pl(<<0,0,1,2>>, <<1,0,0,3>>, ClsAll, cbs, D0) }
+Small == Small1 \cup Small2(CbAll)
+PlansQ == Small1 \cup Small2(CbAB) \cup
           { Pl(P111, P111, ClsAll, {"A"}, D0), Pl(P111, P111, ClsMid, {"B"}, D0),
-            Pl(<<1,1,2,0>>, <<0,2,1,1>>, ClsMid \cup {"npB"}, CbAB, D0),    \* old lacks key 1, has key 4
-            Pl(<<1,2,3,0>>, <<3,2,1,0>>, ClsMid, {"A"}, D0),                \* same members, reversed powers
+            Pl(<<1,1,2,0>>, <<0,2,1,1>>, ClsMid \cup {"npB"}, {"A"}, D0),    \* old lacks key 1, has key 4
             Pl(<<2,0,1,1>>, <<1,1,0,0>>, ClsMid, {"A"}, D0),                \* gap in the new set: "next" address is a non-member
-            Pl(<<1,1,1,1>>, <<1,1,1,1>>, ClsCore, {"A"}, D0),
             Pl(<<1,2,3,4>>, <<4,3,2,1>>, ClsCore, {"A"}, D0) }
 PlansT == Small \cup
           { Pl(P111, P111, ClsAll, CbAll, D0), Pl(<<1,1,2,0>>, <<0,2,1,1>>, ClsAll, CbAll, D0),
